@@ -41,6 +41,14 @@ def safe_to_evaluate(root, ctx=None):
 
 
 _ASK = [0]
+EXPIRED = [lambda: False]   # set by the shard runner to cfg.out_of_time: inner loops stop at the deadline too
+
+
+def expired():
+    try:
+        return bool(EXPIRED[0]())
+    except Exception:
+        return False
 
 
 def step(rec, node, rule, check_original=False, listed=False):
@@ -104,6 +112,8 @@ def apply_everywhere(rec, root, rules, rng, cap=6, check_original=False):
     to `cap` of them.  Returns list of (label, index, new_root)."""
     out = []
     for label, rule in rules:
+        if expired():
+            break
         try:
             nodes = rule.find_nodes(root)
         except Exception:
@@ -143,6 +153,8 @@ def inplace_chain(rec, root, rules, rng, steps=6, big=False, on_step=None):
     done = []
     previous = []
     for _ in range(steps):
+        if expired():
+            break
         if rng.random() < 0.5 and _small(cur):
             # the state is shown to someone between the steps: every rendering is a pure read
             # (very deep trees are left out: the renderers recurse per level and, with the raised
@@ -223,6 +235,8 @@ def apply_from_subtree_listing(rec, root, rules, rng, cap=2):
     nodes of the subtree it is given, from 0), and each listed node is then rewritten in place in
     the whole tree.  Every application starts from a fresh clone of `root`."""
     for label, rule in rules:
+        if expired():
+            return
         for side in ("left", "right"):
             try:
                 tree = root.clone()
@@ -242,6 +256,87 @@ def apply_from_subtree_listing(rec, root, rules, rng, cap=2):
                     rule.apply_to(nodes[k if rng.random() < 0.5 else len(nodes) - 1 - k])
                 except (Exception, RecursionError):
                     pass
+
+
+def inplace_pairs(rec, root, rules, rng, first=8, second=6, big=False):
+    """Two in-place steps on one tree object, systematically: up to `first` (rule, node) choices
+    for step one, and for each of them up to `second` choices for step two on the tree that step
+    one left behind (no clone in between; every pair starts from a fresh clone of `root`)."""
+    def listing(tree):
+        out = []
+        for label, rule in rules:
+            try:
+                for k in range(len(rule.find_nodes(tree))):
+                    out.append((label, rule, k))
+            except Exception:
+                pass
+        return out
+
+    def do(tree, label, rule, k):
+        nodes = rule.find_nodes(tree)
+        if k >= len(nodes):
+            return None
+        res = S.root_of(rule.apply_to(nodes[k]).result)
+        S.shadow(res)
+        return res
+
+    try:
+        c1 = listing(root.clone())
+    except (Exception, RecursionError):
+        return
+    if len(c1) > first:
+        c1 = rng.sample(c1, first)
+    for label1, rule1, k1 in c1:
+        if expired():
+            return
+        try:
+            mid = do(root.clone(), label1, rule1, k1)
+            if mid is None or too_big(S.shadow(mid), big):
+                continue
+            c2 = listing(mid)
+        except (Exception, RecursionError):
+            continue
+        # steps that act near the first one are the interesting ones, but all are eligible
+        if len(c2) > second:
+            c2 = rng.sample(c2, second)
+        for j, (label2, rule2, k2) in enumerate(c2):
+            try:
+                tree = mid if j == len(c2) - 1 else do(root.clone(), label1, rule1, k1)
+                if tree is None:
+                    continue
+                do(tree, label2, rule2, k2)
+                rec.arm("inplace:two-step-pairs")
+            except (Exception, RecursionError):
+                pass
+        # the same, but step two takes its node from the listings made BEFORE step one (an agent that
+        # lists once and acts twice): only nodes that are still part of the tree and at which the
+        # rule still reports applicable
+        for _ in range(3):
+            try:
+                tree = root.clone()
+                before = {}
+                for label, rule in rules:
+                    try:
+                        before[label] = (rule, list(rule.find_nodes(tree)))
+                    except Exception:
+                        pass
+                nodes1 = before.get(label1, (None, []))[1]
+                if k1 >= len(nodes1):
+                    break
+                tree = S.root_of(rule1.apply_to(nodes1[k1]).result)
+                reachable = {id(m) for m in S.nodes_preorder(tree)}
+                opts = []
+                for label2, (rule2, nodes2) in before.items():
+                    for n2 in nodes2:
+                        if id(n2) in reachable and rule2.can_apply_to(n2):
+                            opts.append((rule2, n2))
+                if not opts:
+                    break
+                rule2, n2 = rng.choice(opts)
+                rec.arm("inplace:second-step-from-the-first-listing")
+                rule2.apply_to(n2)
+            except (Exception, RecursionError):
+                pass
 
 
 def replay_apply(w):
